@@ -208,8 +208,8 @@ Definition run_fees (p : profile) (s : bytes) : bytes :=
 Definition run_commit (len : N) (valid : bool) (buf : bytes) : bytes :=
   match from_commitment_p (fun _ => valid) (firstn (N.to_nat len) buf) with
   | Totality.Val b => if b then L "ok" else L "err"
-  | Totality.Panic WOobRead => if valid then L "ok" else L "err"        (* what the 33 bytes at the pointer happened to be *)
-  | _ => L "panic" end.
+  | Totality.Fail _ => L "err"
+  | Totality.Panic _ => L "panic" end.
 Definition run_ruint (p : profile) (size : N) (data : bytes) : bytes := show_out (fun n => L "ok " ++ dec_of_N n) (read_uint_p p data (N.to_nat size)).
 
 Definition starts_with (p s : bytes) : bool := bytes_eqb (firstn (length p) s) p.
